@@ -1266,6 +1266,19 @@ def replay(ctx, path):
             ctx.notes.append("replay of a schedule needs the shim: " + why)
             return
         replay_schedule(ctx, case)
+    elif sc == "free-schedule":
+        ok2, why = shim_available()
+        if not ok2:
+            ctx.notes.append("replay of a schedule needs the shim: " + why)
+            return
+        from . import shim
+        obs = free_run(shim, case["init"], int(case["p0_calls_first"]), int(case["p1_calls_then"]))
+        print(json.dumps(obs, indent=1))
+        if len(obs.get("holders_at_once", [])) >= 2:
+            ctx.violation("schedule", case, expected="at most one process reports 'Lock acquired' before the other has released",
+                          observed=obs, note="replayed model-free schedule: two simultaneous holders")
+        else:
+            print("at most one holder on this schedule")
     else:
         run(ctx)
 
